@@ -6,13 +6,14 @@ from fractions import Fraction
 
 import numpy as np
 
+from harness.translate import translator_obligations
 from harness.common import f2hex, hex2f, run_driver, lean_obligations, ulps
 
 MODULE = 'Ndt.Props.C13'
 THEOREMS = ['Ndt.dea3_eq', 'Ndt.dea3_abserr_nonneg', 'Ndt.dea3_abserr_ge', 'Ndt.dea3_converged',
             'Ndt.dea3_constant', 'Ndt.dea3_no_division_by_zero', 'Ndt.dea3Sss_geometric',
             'Ndt.dea3_geometric', 'Ndt.dea3_geometric_tiny', 'Ndt.dea3_geometric_error_dominated',
-            'Ndt.dea3List_length', 'Ndt.dea3List_getElem', 'Ndt.dea3Call_symmetric', 'Ndt.dea3Call_plain']
+            'Ndt.dea3List_length', 'Ndt.dea3List_getElem', 'Ndt.dea3Call_symmetric', 'Ndt.dea3Call_plain', 'Ndt.dea3_generated']
 
 EPS = 2.0 ** -52
 TINY = 2.0 ** -1022
@@ -98,6 +99,7 @@ def rounding_bound(e0, e1, e2, q):
 
 def run(ctx):
     from numdifftools.extrapolation import dea3
+    translator_obligations(ctx, ['dea3.'])
     lean_obligations(ctx, MODULE, THEOREMS)
     rng = ctx.rng
 
